@@ -1,5 +1,5 @@
 """C16 - polynomial and linear-combination types form the free algebra they denote."""
-import e1_typestate, specs
+import e1_typestate, specs, e8_formulas
 
 LEVEL = 'other'
 EXPLANATION = ('Typestate dataflow (clean/dirty, must-analysis over the MIR CFG incl. loops) for Lc (no zero coefficient stored) '
@@ -8,7 +8,7 @@ EXPLANATION = ('Typestate dataflow (clean/dirty, must-analysis over the MIR CFG 
                'clean()/reduce() on every path before the value escapes; raw construction only at reviewed sites with a mechanical '
                'justification; fields private; callers of the dirty API anywhere in the workspace are checked. PolyBase holds only '
                'an Lc and uses only its clean-on-return API, so equality, is_zero and term count are those of the mathematical '
-               'polynomial after any operation sequence (induction over the API). NOT decided: ring axioms, evaluation '
+               'polynomial after any operation sequence (induction over the API). (F9) every graded-lex order compares total degree first, then lex. NOT decided: ring axioms, evaluation '
                'homomorphism, compatibility of the monomial orders with multiplication.')
 TRUSTED = ['rustc MIR of the current tree', 'container-method preservation table (retain/remove/clear/... keep the invariant)',
            'values received from outside the body are clean (induction over obligations a-d)',
@@ -20,4 +20,5 @@ def run(ctx, rep):
     rep.rule('E1', e1_typestate.__doc__.strip().split('\n')[0])
     e1_typestate.run_type(facts, rep, specs.LC, 'Lc', 25)
     e1_typestate.run_type(facts, rep, specs.MDEG, 'MultiDeg', 10)
+    e8_formulas.check_grlex(facts, rep)
     rep.callsites += sum(len(facts.bodies[k].calls()) for k in rep.functions if k in facts.bodies)
